@@ -104,6 +104,29 @@ def floor(ctx):
                 viol.append({'clause': 'C14:alphabet-collection', 'input': {'collection': coll},
                              'detail': 'got %r want %r' % (sorted(got), sorted(want))})
                 break
+    # an abandoned tokeniser (peeked at, zipped, or cut short by an error of its consumer) must not affect later calls
+    sample = seqs[:: max(1, len(seqs) // 300)]
+    for seq in sample:
+        s_ = ''.join(seq)
+        ev += 1
+        g = sf.split_selfies(s_)
+        next(g, None)
+        del g
+        for a_, b_ in zip(sf.split_selfies(s_), sf.split_selfies(s_ + '[C][O]')):
+            break
+        try:
+            sf.decoder(s_ + '[Zz]' + s_)
+        except Exception:
+            pass
+        try:
+            sf.selfies_to_encoding(s_ + '[Qq]', {'[nop]': 0})
+        except Exception:
+            pass
+        r = check_tokens(seq)
+        if r and len(viol) < 8:
+            viol.append({'clause': r[0], 'input': {'tokens': seq, 'history': 'abandoned split_selfies generators, a failing '
+                         'decoder call and a failing selfies_to_encoding call on the same string first'},
+                         'detail': r[1] + ' (after abandoned tokenisers of the same string)'})
     # encoder outputs are well formed; decoder attribution indices match the tokens
     sf.set_semantic_constraints(enc.relaxed_table())
     long_ones = ['C' * 4097, '[Na+].' + 'C' * 5000 + 'O.[Cl-]', 'C' * 4096, 'CC(C)' * 1500, 'C.' * 3000 + 'C',
